@@ -27,8 +27,103 @@ pub struct Case {
     pub connects: Vec<(usize, usize)>,
     /// run a short learn() on the same network object first and check the gradients at the trained weights
     pub after_learn: bool,
+    /// with `after_learn`: this many of the trailing `connects` are only added after that training (history:
+    /// build, train, connect, differentiate)
+    pub late_connects: usize,
     /// a frozen output gradient of magnitude ~1e-7 is back-propagated (scale-free check of the backward pass)
     pub near_optimum: bool,
+    /// scale of the weights (1.5; 5 in part of the single-layer cases: saturated tanh / sigmoid units)
+    pub wscale: f32,
+}
+
+/// Component-wise backward error bounds of one isolated dense / convolution / deconvolution layer for the
+/// functional <g0, act(Op(x))>. A backward pass that evaluates  g0 * act'(z)  in single precision and then applies
+/// the transposed linear operator has, per component, an error of at most
+///   sum_o |g0_o| (|act'(z_o)| R_o + A) |dz_o/d.|,
+/// R_o = (32 + terms) eps + C dz_o: rounding of the products and sums plus the effect of the rounding error dz_o of
+/// the pre-activation itself (|act''| <= C |act'|: C = 2 for tanh, 1 for the logistic function, 0 for the
+/// piecewise-linear ones, which are kept away from their kink); A = 2e-7 is the absolute accuracy of the
+/// logistic derivative s(1 - s) for saturated s (C07 grants the same). Computed with the f64 reference
+/// operators on |W| and unit vectors (the operators are linear, so one evaluation per component is exact).
+/// Returns (bounds of the input gradient, bounds per parameter tensor).
+fn isolation_bounds(l: &LayerSpec, params: &[Vec<f64>], x: &[f64], xdims: &[usize], g0: &[f64]) -> Option<(Vec<f64>, Vec<Vec<f64>>)> {
+    let eps = crate::fcmp::EPS32;
+    let (act, bias) = match l {
+        LayerSpec::Dense { act, bias, .. } => (*act, *bias),
+        LayerSpec::Conv { act, .. } | LayerSpec::Deconv { act, .. } => (*act, false),
+        _ => return None,
+    };
+    if act == ActK::Softmax {
+        return None;
+    }
+    let r = ref_layer(l, params, x, xdims);
+    let n_out = r.pre.len();
+    let n_in = x.len();
+    let (curv, a_abs) = match act {
+        ActK::Tanh => (2.0, 0.0),
+        ActK::Sigmoid => (1.0, 2e-7),
+        _ => (0.0, 0.0),
+    };
+    let dact = |z: f64| -> f64 {
+        match act {
+            ActK::Tanh => 1.0 - z.tanh() * z.tanh(),
+            ActK::Sigmoid => {
+                let s = 1.0 / (1.0 + (-z).exp());
+                s * (1.0 - s)
+            }
+            ActK::ReLU => if z > 0.0 { 1.0 } else { 0.0 },
+            ActK::Leaky => if z > 0.0 { 1.0 } else { 0.01 },
+            _ => 1.0,
+        }
+    };
+    let terms = (n_in + n_out + 2) as f64;
+    let v: Vec<f64> = (0..n_out)
+        .map(|o| {
+            let dz = 4.0 * (n_in as f64 + 2.0) * eps * r.mag[o];
+            let rel = (32.0 + terms) * eps + curv * dz;
+            g0[o].abs() * (dact(r.pre[o]).abs() * rel + a_abs)
+        })
+        .collect();
+    let dotv = |y: &[f64]| -> f64 { y.iter().zip(v.iter()).map(|(a, b)| a.abs() * b).sum() };
+    match l {
+        LayerSpec::Dense { out, .. } => {
+            let w = &params[0];
+            let ib: Vec<f64> = (0..n_in).map(|i| (0..*out).map(|o| v[o] * w[o * n_in + i].abs()).sum()).collect();
+            let mut pb = vec![(0..*out * n_in).map(|k| v[k / n_in] * x[k % n_in].abs()).collect::<Vec<f64>>()];
+            if bias {
+                pb.push(v.clone());
+            }
+            Some((ib, pb))
+        }
+        LayerSpec::Conv { cfg, .. } | LayerSpec::Deconv { cfg, .. } => {
+            let d = spatial_dims(xdims);
+            let is_conv = matches!(l, LayerSpec::Conv { .. });
+            let op = |xx: &[f64], kk: &[f64]| -> Vec<f64> { if is_conv { rm::conv(xx, d, kk, cfg).0 } else { rm::deconv(xx, d, kk, cfg).0 } };
+            let kabs: Vec<f64> = params.iter().flat_map(|p| p.iter().map(|v| v.abs())).collect();
+            let xabs: Vec<f64> = x.iter().map(|v| v.abs()).collect();
+            let mut ib = Vec::with_capacity(n_in);
+            let mut e = vec![0.0; n_in];
+            for i in 0..n_in {
+                e[i] = 1.0;
+                ib.push(dotv(&op(&e, &kabs)));
+                e[i] = 0.0;
+            }
+            let per = params[0].len();
+            let mut pb = Vec::new();
+            let mut k = vec![0.0; kabs.len()];
+            for (ti, p) in params.iter().enumerate() {
+                let mut b = Vec::with_capacity(p.len());
+                for j in 0..p.len() {
+                    k[ti * per + j] = 1.0;
+                    b.push(dotv(&op(&xabs, &k)));
+                    k[ti * per + j] = 0.0;
+                }
+                pb.push(b);
+            }
+            Some((ib, pb))
+        }
+        _ => None,
+    }
 }
 
 pub fn conv_nonunit(l: &LayerSpec) -> bool {
@@ -99,7 +194,7 @@ fn decode(tape: &[u32], tier: Tier) -> Case {
         }
         spec.layers.iter_mut().for_each(smooth);
     }
-    Case { spec, obj, softmax_ce, wseed: t.raw(), wmode, xseed: t.raw(), tseed: t.raw(), learn_step: t.chance(1, 3), isolation, connects: vec![], after_learn: !isolation && t.chance(1, 6), near_optimum: t.chance(1, 8) }
+    Case { spec, obj, softmax_ce, wseed: t.raw(), wmode, xseed: t.raw(), tseed: t.raw(), learn_step: t.chance(1, 3), isolation, connects: vec![], after_learn: !isolation && t.chance(1, 6), late_connects: 0, near_optimum: t.chance(1, 8), wscale: if isolation && t.chance(1, 4) { 5.0 } else { 1.5 } }
 }
 
 fn g0_for_scale_max(v: &[f64]) -> f64 {
@@ -201,9 +296,24 @@ pub fn check(case: &Case, ev: &mut CaseEv, tier: Tier) -> CheckResult {
         }
         Ok(n)
     };
-    let mut net = build_c(spec).map_err(|p| Fail::new(format!("valid architecture rejected: {} ({:?}, connections {:?})", p, spec, case.connects)))?;
+    let late = if case.after_learn { case.late_connects.min(connects.len()) } else { 0 };
+    let mut net = if late == 0 {
+        build_c(spec)
+    } else {
+        build(spec).and_then(|mut n| {
+            for (a, b) in &connects[..connects.len() - late] {
+                let (a, b) = (*a, *b);
+                catch(std::panic::AssertUnwindSafe(|| n.connect(a, b)))?;
+            }
+            Ok(n)
+        })
+    }
+    .map_err(|p| Fail::new(format!("valid architecture rejected: {} ({:?}, connections {:?})", p, spec, case.connects)))?;
     // wmode 5: one whole parameter tensor (e.g. a filter) is exactly zero; wmode 6: some inputs are exactly zero
-    let mut ps = seeded_params(&net, spec, case.wseed, if case.wmode >= 5 { 1 } else { case.wmode }, 1.5);
+    let mut ps = seeded_params(&net, spec, case.wseed, if case.wmode >= 5 { 1 } else { case.wmode }, case.wscale);
+    if case.wscale > 2.0 {
+        ev.class("single layer with weights of scale 5 (saturated units)");
+    }
     if case.wmode == 5 && !ps.is_empty() {
         let k = (case.wseed as usize / 7) % ps.len();
         let d = tensor_dims(&ps[k].1);
@@ -249,6 +359,13 @@ pub fn check(case: &Case, ev: &mut CaseEv, tier: Tier) -> CheckResult {
             return Ok(());
         }
         ev.class("gradients checked after learn() on the same network object");
+        if late > 0 {
+            for (a, b) in &connects[connects.len() - late..] {
+                let (a, b) = (*a, *b);
+                catch(std::panic::AssertUnwindSafe(|| net.connect(a, b))).map_err(|p| Fail::new(format!("connect({}, {}) after training was rejected although it is accepted before training: {}", a, b, p)))?;
+            }
+            ev.class("skip connection(s) added after training on the same network object");
+        }
     }
     let rps = to_ref_params(&ps);
     let mut x = payload(case.xseed, 3, n_in, 1.0);
@@ -314,7 +431,9 @@ pub fn check(case: &Case, ev: &mut CaseEv, tier: Tier) -> CheckResult {
     let g0_for_scale: Vec<f64> = if mode == SMode::Functional { g0d.clone() } else { rm::loss_grad(case.obj, &out_ref, &td) };
     // the objective's own gradient is computed by the library from single-precision outputs: where it
     // cancels (p close to t) its relative error is large; measure that conditioning on the reference
-    let g0_cond: f64 = if mode == SMode::Loss {
+    // (this applies whenever the library derives the output gradient from its own single-precision output, i.e.
+    // in every case except the frozen-gradient ones: isolated layers and the tiny-g0 mode)
+    let g0_cond: f64 = if !case.isolation && !tiny {
         let up: Vec<f64> = out_ref.iter().map(|p| p * (1.0 + 2.4e-7) + 1e-38).collect();
         let dn: Vec<f64> = out_ref.iter().map(|p| p * (1.0 - 2.4e-7) - 1e-38).collect();
         let (gu, gd) = (rm::loss_grad(case.obj, &up, &td), rm::loss_grad(case.obj, &dn, &td));
@@ -332,6 +451,20 @@ pub fn check(case: &Case, ev: &mut CaseEv, tier: Tier) -> CheckResult {
     ensure!(tens::flat(&lib_out).len() == n_out, "harness: output sizes differ ({} vs {})", tens::flat(&lib_out).len(), n_out);
     let tt = if lib_out.shape == tt.shape { tt } else { Tensor::single(target.clone()) };
 
+    // single dense / convolution / deconvolution layer: component-wise error bounds replace the norm-wise tolerance
+    let iso_bounds: Option<(Vec<f64>, Vec<Vec<f64>>)> = if case.isolation && !matches!(spec.layers[0], LayerSpec::Feedback { .. } | LayerSpec::Pool { .. }) {
+        let mut p0: Vec<(usize, Vec<f64>)> = rps.iter().filter(|(r, _)| r.layer == 0 && r.inner.is_none()).map(|(r, d)| (r.tensor, d.clone())).collect();
+        p0.sort_by_key(|x| x.0);
+        let p0: Vec<Vec<f64>> = p0.into_iter().map(|x| x.1).collect();
+        isolation_bounds(&spec.layers[0], &p0, &xd, &spec.input, &g0d)
+    } else {
+        None
+    };
+    // resolution of the f64 central differences themselves (rounding 1e-16 |S| / h, truncation h^2 |S'''| / 6)
+    let ref_noise = 3e-9 * g0d.iter().map(|v| v.abs()).sum::<f64>() + 1e-37;
+    if iso_bounds.is_some() {
+        ev.class("isolation: component-wise error bounds");
+    }
     // --- parameter gradients from the library
     let lib_grads: Vec<(PRef, Tensor)> = if case.isolation {
         // public per-layer backward with the frozen output gradient g0
@@ -390,7 +523,10 @@ pub fn check(case: &Case, ev: &mut CaseEv, tier: Tier) -> CheckResult {
             refs.push(d);
         }
         for i in 0..n_in {
-            let tol = (2e-4 + 4.0 * g0_cond) * refs[i].abs() + (1e-4 + 4.0 * g0_cond) * gref_inf.max(ginf) + noise;
+            let tol = match &iso_bounds {
+                Some((ib, _)) => 8.0 * ib[i] + ref_noise,
+                None => (2e-4 + 4.0 * g0_cond) * refs[i].abs() + (1e-4 + 4.0 * g0_cond) * gref_inf.max(ginf) + noise,
+            };
             let err = (igf[i] as f64 - refs[i]).abs();
             worst = worst.max(err / tol);
             if err > tol {
@@ -400,7 +536,7 @@ pub fn check(case: &Case, ev: &mut CaseEv, tier: Tier) -> CheckResult {
                 )));
             }
         }
-        ev.ratio("input_gradient", worst);
+        ev.ratio(if iso_bounds.is_some() { "input_gradient_componentwise" } else { "input_gradient" }, worst);
         ev.class("isolation:input-gradient");
         let refs_p = collect_params(&net);
         ensure!(refs_p.len() == ptensors.len(), "harness: {} parameter tensors but {} gradient tensors", refs_p.len(), ptensors.len());
@@ -503,7 +639,11 @@ pub fn check(case: &Case, ev: &mut CaseEv, tier: Tier) -> CheckResult {
     for (k, (pi, e)) in elems.iter().enumerate() {
         let g = lib_flat[*pi][*e] as f64;
         // scale-free in the output gradient: relative terms plus 2e-6 * max|g0| * (1 + max|output|)
-        let tol = if p1 { (2e-4 + 4.0 * g0_cond) * refs[k].abs() + (1e-4 + 4.0 * g0_cond) * gref_inf.max(ginf) + noise } else { 2e-3 * (gref_inf.max(ginf) + base_lib_s.abs()) + 1e-5 };
+        let tol = match (&iso_bounds, p1) {
+            (Some((_, pb)), true) => 8.0 * pb[*pi][*e] + ref_noise,
+            (_, true) => (2e-4 + 4.0 * g0_cond) * refs[k].abs() + (1e-4 + 4.0 * g0_cond) * gref_inf.max(ginf) + noise,
+            (_, false) => 2e-3 * (gref_inf.max(ginf) + base_lib_s.abs()) + 1e-5,
+        };
         let err = (g - refs[k]).abs();
         worst = worst.max(err / tol);
         if !(err <= tol) {
@@ -514,7 +654,7 @@ pub fn check(case: &Case, ev: &mut CaseEv, tier: Tier) -> CheckResult {
             )));
         }
     }
-    ev.ratio(if p1 { "param_gradient_P1" } else { "param_gradient_P2" }, worst);
+    ev.ratio(if p1 && iso_bounds.is_some() { "param_gradient_componentwise" } else if p1 { "param_gradient_P1" } else { "param_gradient_P2" }, worst);
     ev.units = elems.len() as u64;
 
     // --- end to end through the public API: one plain-SGD learn() step on this sample
@@ -587,12 +727,13 @@ impl Prop for C01 {
         t.pick(60_000, 3_000_000)
     }
     fn rule(&self) -> String {
-        "tape-decoded network: input flat 1..8 or c x h x w (c 1-3, h,w 1-7, thorough 9; non-square), 1-4 (thorough 6) layers of dense / convolution / deconvolution / max-pool / feedback block without internal skips in any order that fits, full (filters, kernel, stride, padding, dilation, bias) lattice, element-wise activations, soft-max + cross-entropy head in 1/6 of the cases, all seven objectives, distinct non-constant weights and inputs; 1/4 of the cases are single layers whose public backward() is called in isolation; in 1/6 of the other cases the same network object first goes through two epochs of learn() and the gradients are checked at the trained weights; parameter tensors that are exactly zero and inputs with exact zeros occur (with smooth activations). Oracle: central differences of an independent f64 reference network (path P1, used when the reference reproduces the library's forward pass at the base point and two perturbed points) or of the library's own f32 forward pass with Richardson extrapolation (path P2); every parameter (sampled above 300) and, for isolated layers, every input-gradient component; one learn() step with plain SGD must move each parameter by -lr * gradient. Cases within 2e-3 of an activation kink / pooling tie are discarded (counted). Non-trivial: |g|max > 1e-3 and (depth >= 2 or non-default stride/dilation/padding or >= 2 channels or a feedback block). Distinct = (architecture with all hyper-parameters and activations, objective, soft-max flag).".into()
+        "tape-decoded network: input flat 1..8 or c x h x w (c 1-3, h,w 1-7, thorough 9; non-square), 1-4 (thorough 6) layers of dense / convolution / deconvolution / max-pool / feedback block without internal skips in any order that fits, full (filters, kernel, stride, padding, dilation, bias) lattice, element-wise activations, soft-max + cross-entropy head in 1/6 of the cases, all seven objectives, distinct non-constant weights and inputs; 1/4 of the cases are single layers whose public backward() is called in isolation (a quarter of them with weights of scale 5, i.e. saturated tanh / logistic units; dense / convolution / deconvolution layers are then judged by component-wise error bounds instead of a norm-wise tolerance); in 1/6 of the other cases the same network object first goes through two epochs of learn() and the gradients are checked at the trained weights; parameter tensors that are exactly zero and inputs with exact zeros occur (with smooth activations). Oracle: central differences of an independent f64 reference network (path P1, used when the reference reproduces the library's forward pass at the base point and two perturbed points) or of the library's own f32 forward pass with Richardson extrapolation (path P2); every parameter (sampled above 300) and, for isolated layers, every input-gradient component; one learn() step with plain SGD must move each parameter by -lr * gradient. Cases within 2e-3 of an activation kink / pooling tie are discarded (counted). Non-trivial: |g|max > 1e-3 and (depth >= 2 or non-default stride/dilation/padding or >= 2 channels or a feedback block). Distinct = (architecture with all hyper-parameters and activations, objective, soft-max flag).".into()
     }
     fn assumptions(&self) -> Vec<String> {
         vec![
             "for MAE, RMSE and cross-entropy without soft-max the compared scalar is <g0, f(x; theta)> with g0 the objective's documented gradient frozen at the base point (back-propagation = transposed Jacobian); for AE, MSE, BCE, KL and soft-max + CE it is the loss itself".into(),
             "tolerance P1: 2e-4 |g_ref| + 1e-4 |g|max + 2e-6 max|g0| (1 + max|output|), g0 = gradient handed to the last layer (so the check is scale-free in g0), relative terms widened by 4x the measured conditioning of the objective's own gradient (p close to t); P2: 2e-3 (|g|max + |S|)".into(),
+            "single dense / convolution / deconvolution layers: |g_lib - g_ref| <= 8 sum_o |g0_o| (|act'(z_o)| ((32 + terms) eps + C dz_o) + A) |dz_o/d.| + 3e-9 sum|g0| (component-wise backward error of evaluating g0 * act'(z) in single precision and applying the transposed operator; dz_o = 4 (n+2) eps sum|w x| the rounding error of the pre-activation, C = 2 / 1 / 0 for tanh / logistic / piecewise-linear, A = 2e-7 the absolute accuracy of s(1-s) for saturated s as granted by C07; the last term is the resolution of the f64 central differences); worst observed ratio 0.04".into(),
             "gradients inside feedback blocks are compared per unrolled copy (the library updates copies independently and re-couples them afterwards)".into(),
         ]
     }
